@@ -313,6 +313,33 @@ def run_ctor(case, obs, prng):
             if vid in NONFINITE_VIDS:
                 key = K_NONFINITE
             obs.violation(key, f'{case["cls"]}({p}={bad[p]!r}) was accepted (value kind {vid}, parameter kind {kind})')
+    # the same domain under astropy's globally enabled unit equivalencies (a user's session may have them switched on):
+    # a dimensionless or pixel quantity is still not an angle
+    import astropy.units as u
+    for p in list(kw):
+        kind = param_kind(case['cls'], p)
+        if kind not in ('size-sky', 'angle'):
+            continue
+        for ctxname, ctx, val in (('dimensionless_angles', lambda: u.set_enabled_equivalencies(u.dimensionless_angles()), 3 * u.dimensionless_unscaled),
+                                  ('pixel_scale', lambda: u.add_enabled_equivalencies(u.pixel_scale(0.2 * u.arcsec / u.pix)), 3 * u.pix)):
+            obs.count('invalid-under-enabled-equivalencies')
+            good2 = cls(**kw)
+            fpg = S.fingerprint(good2)
+            with ctx():
+                try:
+                    cls(**dict(kw, **{p: val}))
+                    obs.violation('ctor-accepts-invalid:' + kind, f'{case["cls"]}({p}={val!r}) was accepted while the {ctxname} equivalency was enabled')
+                except REJECT:
+                    obs.ok(1, 'ctor-invalid-rejected')
+                except Exception as exc:
+                    obs.violation('ctor-wrong-exception-type', f'{case["cls"]}({p}={val!r}) under {ctxname} raised {type(exc).__name__}: {exc}')
+                try:
+                    setattr(good2, p, val)
+                    obs.violation('assign-accepts-invalid:' + kind, f'{case["cls"]}.{p} = {val!r} was accepted while the {ctxname} equivalency was enabled')
+                except REJECT:
+                    obs.check(S.fingerprint(good2) == fpg, 'rejected-assignment-changed-object', f'rejected {case["cls"]}.{p} changed the object', 'rejected-leaves-unchanged')
+                except Exception as exc:
+                    obs.violation('assign-wrong-exception-type', f'{case["cls"]}.{p} = {val!r} under {ctxname} raised {type(exc).__name__}: {exc}')
     # annulus ordering at construction
     for a, b in ANNULUS_PAIRS.items():
         if a in kw:
@@ -622,6 +649,26 @@ def run_regions(case, obs, prng):
             seq = {'list': lambda: items, 'tuple': lambda: tuple(items), 'iter': lambda: iter(items),
                    'generator': lambda: (x for x in items), 'map': lambda: map(lambda x: x, items)}[form]()
             obs.count('non-region-member-in-' + form)
+        if bad and prng.random() < 0.25 and len(lst.regions):
+            # item / slice assignment and deletion: whether or not the list supports them, it must not end up holding a non-region
+            form = prng.choice(['setitem-index', 'setitem-slice', 'setitem-empty-slice', 'setitem-full-slice-str'])
+            obs.count('regions-' + form)
+            try:
+                if form == 'setitem-index':
+                    lst[prng.randrange(len(lst.regions))] = b
+                elif form == 'setitem-slice':
+                    lst[0:1] = [b]
+                elif form == 'setitem-empty-slice':
+                    lst[1:1] = [goods[0], b]
+                else:
+                    lst[:] = 'ab'
+            except REJECT:
+                pass
+            except Exception as exc:
+                obs.violation('regions-wrong-exception-type', f'Regions {form} raised {type(exc).__name__}: {exc}')
+            if not members_ok(form):
+                lst.regions[:] = before
+            continue
         try:
             if op == 'append':
                 lst.append(b if bad else seq[0])
